@@ -530,7 +530,7 @@ def block_diagonalize(
             if index[0] not in to_keep:
                 return x
             if isinstance(x, sympy.MatrixBase):
-                return x.multiply_elementwise(to_keep[index[0]])
+                return x.multiply_elementwise(_broadcast_mask(to_keep[index[0]], x))
             if sparse.issparse(x):
                 return x.multiply(to_keep[index[0]])
             return x * to_keep[index[0]]
@@ -540,7 +540,7 @@ def block_diagonalize(
                 return zero
             x = x[index] if isinstance(x, BlockSeries) else x
             if isinstance(x, sympy.MatrixBase):
-                return x.multiply_elementwise(to_eliminate[index[0]])
+                return x.multiply_elementwise(_broadcast_mask(to_eliminate[index[0]], x))
             if sparse.issparse(x):
                 return x.multiply(to_eliminate[index[0]])
             return x * to_eliminate[index[0]]
@@ -969,7 +969,7 @@ def solve_sylvester_diagonal(
             array_eigs_b = np.array(eigs_B, dtype=object)
             energy_denominators = sympy.Matrix(
                 np.broadcast_to(
-                    1 / (array_eigs_a.reshape(-1, 1) - array_eigs_b), Y.shape
+                    sympy.S.One / (array_eigs_a.reshape(-1, 1) - array_eigs_b), Y.shape
                 )
             ).subs(sympy.zoo, sympy.S.Zero)  # Take care of diagonal elements
             return energy_denominators.multiply_elementwise(Y)
@@ -1630,6 +1630,18 @@ def _convert_if_zero(value: Any, atol: float = 1e-12):
     elif value == 0:
         return zero
     return value
+
+
+def _broadcast_mask(mask: Any, value: sympy.MatrixBase) -> sympy.Matrix:
+    """Convert an elementwise mask to a sympy matrix with the shape of ``value``.
+
+    The mask of a block whose unperturbed Hamiltonian is identically zero is a 1x1
+    numpy array (all its energies are equal), which numpy broadcasts but sympy does not.
+    """
+    mask = np.array(mask)
+    if mask.dtype == bool:
+        mask = mask.astype(int)
+    return sympy.Matrix(np.broadcast_to(sympy.S.One * mask, value.shape))
 
 
 def _check_biorthonormality(right_subspaces, left_subspaces, atol=1e-12):
